@@ -1,0 +1,42 @@
+//go:build !llgo
+// +build !llgo
+
+package abi
+
+import (
+	"go/types"
+	"testing"
+)
+
+// Keys and elems larger than 128 bytes are stored indirectly: the bucket slot
+// (and therefore maptype.KeySize / ValueSize) has the size of a pointer.
+func TestMapSlotSizes(t *testing.T) {
+	sizes := types.SizesFor("gc", "amd64")
+	arr := func(n int64) types.Type { return types.NewArray(types.Typ[types.Uint64], n) }
+	cases := []struct {
+		key, elem       types.Type
+		keySize, elSize int64
+		flags           int
+	}{
+		{types.Typ[types.Int], arr(16), 8, 128, 0},
+		{types.Typ[types.Int], arr(17), 8, 8, 2},
+		{arr(16), types.Typ[types.Int], 128, 8, 0},
+		{arr(17), types.Typ[types.Int], 8, 8, 1},
+		{arr(33), arr(40), 8, 8, 3},
+	}
+	for _, c := range cases {
+		m := types.NewMap(c.key, c.elem)
+		k, e := MapSlotSizes(m, sizes)
+		if k != c.keySize || e != c.elSize {
+			t.Errorf("MapSlotSizes(%v) = %d, %d; want %d, %d", m, k, e, c.keySize, c.elSize)
+		}
+		if f := MapTypeFlags(m, sizes) & 3; f != c.flags {
+			t.Errorf("MapTypeFlags(%v)&3 = %d; want %d", m, f, c.flags)
+		}
+		// the bucket built for the map has exactly 8 key slots and 8 elem slots of that size
+		b := MapBucketType(m, sizes)
+		if got, want := sizes.Sizeof(b), 8+8*k+8*e+8; got != want {
+			t.Errorf("bucket size of %v = %d; want %d", m, got, want)
+		}
+	}
+}
